@@ -100,6 +100,13 @@ func RegisterTypeMigration(previousPkgPath, previousTypeName string, newType err
 	if f, ok := backwardRegistry[newKey]; ok {
 		panic(fmt.Errorf("migration to type %q already registered (from %q)", newKey, f))
 	}
+	// If the previous name is itself the result of an earlier
+	// migration, use the original name: every entry of the registry
+	// points directly at an original name, whatever the order in which
+	// a chain of renames is registered.
+	if origKey, ok := backwardRegistry[prevKey]; ok {
+		prevKey = origKey
+	}
 	backwardRegistry[newKey] = prevKey
 	// If any other key was registered as a migration from newKey,
 	// we'll forward those as well.
